@@ -549,7 +549,6 @@ impl RefState {
             }
             by_pool.entry(k).or_default().push(tx.clone());
         }
-        let _ = rules;
         for (k, reqs) in by_pool {
             let tl: u128 = reqs.iter().map(|t| t.outputs[0].value.0).fold(0, |a, b| a.saturating_add(b));
             let tr: u128 = reqs.iter().map(|t| t.outputs[1].value.0).fold(0, |a, b| a.saturating_add(b));
@@ -567,7 +566,13 @@ impl RefState {
                 o.denom = k.liq_token_denom();
                 o.value = CoinValue(if total_sq == 0 { 0 } else { mulfrac(liqs, my, total_sq) });
                 self.coins.insert(t.output_coinid(0), CoinDataHeight { coin_data: o, height: self.height.into() });
-                self.coins.remove(&t.output_coinid(1));
+                if rules.old_deposit_rule {
+                    // mainnet/testnet below 978392: the code deliberately keeps its historical behaviour, in which the right-hand
+                    // coin of a deposit is not removed (the "inflation bug" window); recorded so that C01 can account for it
+                    rep.legacy_deposit_right_kept.push((k.right(), t.outputs[1].value.0));
+                } else {
+                    self.coins.remove(&t.output_coinid(1));
+                }
                 rep.transformed.insert(t.output_coinid(0));
                 rep.transformed.insert(t.output_coinid(1));
             }
@@ -728,6 +733,8 @@ pub struct SealReport {
     pub peg_sym_issued: u128,
     pub subsidy_sym: u128,
     pub proposer_reward: Option<u128>,
+    /// (denomination, amount) of right-hand deposit coins left unspent under the grandfathered deposit rule
+    pub legacy_deposit_right_kept: Vec<(Denom, u128)>,
 }
 
 pub fn pool_eq(a: &PoolState, b: &PoolState) -> bool {
